@@ -136,6 +136,17 @@ func init() {
 					x := g.BuildPair(pc, false)
 					docCase(c, x, pc.String(), newDocWriter(rand.New(rand.NewSource(int64(idx)))))
 				}},
+				{Name: "all-names", N: 61 * 4, Exhaustive: true, Run: func(c *Ctx, idx int) {
+					x, label := allNamesValue(caseGen(c, true, idx), idx)
+					docCase(c, x, label, newDocWriter(rand.New(rand.NewSource(int64(idx)))))
+				}},
+				{Name: "deep", N: tierN(tier, 160, 3000), Run: func(c *Ctx, idx int) {
+					g := caseGen(c, false, idx)
+					g.PSet = 0.12
+					k := vmodel.Kinds[idx%len(vmodel.Kinds)]
+					x := g.Struct(k, 5+idx%3, true)
+					docCase(c, x, fmt.Sprintf("deep %s", k.Name), newDocWriter(c.R))
+				}},
 				{Name: "random", N: tierN(tier, 15000, 300000), Run: func(c *Ctx, idx int) {
 					g := caseGen(c, false, idx)
 					x, label := randomValue(g, tierN(tier, 2, 4))
